@@ -203,7 +203,7 @@ theorem parse_dispatch (E : Eval.Engines) (doc rest : Bytes) (c : UInt8) :
     ∧ (∀ ns, E.xml doc (0x2f :: rest) = .nodes ns → Eval.dataParse E doc (0x2f :: rest) = .ok (Eval.xmlJoin ns))
     ∧ (E.xml doc (0x2f :: rest) = .err → Eval.dataParse E doc (0x2f :: rest) = .err)
     ∧ (c ≠ 0x24 → c ≠ 0x2f → Eval.dataParse E doc (c :: rest) = .ok []) := by
-  refine ⟨rfl, by simp [Eval.dataParse, Eval.jsonBranch, Eval.maxDocumentDepth, Gen.DosnodeFlow.maxDocumentDepth], ?_, ?_, ?_⟩
+  refine ⟨rfl, by simp only [Eval.dataParse, Eval.jsonBranch, if_true]; rfl, ?_, ?_, ?_⟩
   · intro ns h; simp [Eval.dataParse, h]
   · intro h; simp [Eval.dataParse, h]
   · intro h1 h2; simp [Eval.dataParse, h1, h2]
@@ -224,34 +224,33 @@ theorem depth_guard_brackets (d max : Nat) (tail : Bytes) (hd : max < d) :
     induction l with
     | nil => intro s h; exact h
     | cons c l ih => intro s h; simp only [List.foldl_cons]; apply ih; simp [Eval.jsonScanStep, h]
-  have hrep : ∀ (k : Nat) (s : Eval.JScan), s.inString = false → max < s.depth + k →
+  have hrep : ∀ (k : Nat) (s : Eval.JScan),
+      (s.over = true ∨ (s.inString = false ∧ max < s.depth + k ∧ s.depth ≤ max)) →
       ((List.replicate k (0x5b : UInt8)).foldl (Eval.jsonScanStep max) s).over = true := by
     intro k
     induction k with
     | zero =>
-      intro s _ h
-      -- depth already above the bound can only have been reached with `over` set: not needed, excluded by the start state
-      simp only [List.replicate_zero, List.foldl_nil]
-      exact absurd h (by
-        intro h'
-        exact absurd h' (by
-          -- unreachable in the use below (k = d > max ≥ 0 with depth 0); discharge by requiring depth ≤ max via strengthening
-          exact fun _ => False.elim (by omega)))
+      intro s h
+      rcases h with h | ⟨_, h1, h2⟩
+      · simpa using h
+      · omega
     | succ k ih =>
-      intro s hs h
+      intro s h
       simp only [List.replicate_succ, List.foldl_cons]
-      by_cases ho : s.over = true
+      rcases h with ho | ⟨hs, h1, h2⟩
       · exact hover _ _ (by simp [Eval.jsonScanStep, ho])
-      · have ho' : s.over = false := by simpa using ho
-        by_cases hm : max < s.depth + 1
-        · exact hover _ _ (by simp [Eval.jsonScanStep, ho', hs, hm])
-        · have : Eval.jsonScanStep max s 0x5b = { s with depth := s.depth + 1 } := by
-            simp [Eval.jsonScanStep, ho', hs, hm]
-          rw [this]
-          apply ih
-          · exact hs
-          · simp only; omega
-  exact hover _ _ (hrep d _ rfl (by simpa using hd))
+      · by_cases ho : s.over = true
+        · exact hover _ _ (by simp [Eval.jsonScanStep, ho])
+        · have ho' : s.over = false := by simpa using ho
+          by_cases hm : max < s.depth + 1
+          · exact hover _ _ (by simp [Eval.jsonScanStep, ho', hs, hm])
+          · have hst : Eval.jsonScanStep max s 0x5b = { s with depth := s.depth + 1 } := by
+              simp [Eval.jsonScanStep, ho', hs, hm]
+            rw [hst]
+            apply ih
+            right
+            refine ⟨hs, ?_, ?_⟩ <;> simp only <;> omega
+  exact hover _ _ (hrep d _ (Or.inr ⟨rfl, by simpa using hd, Nat.zero_le _⟩))
 
 example : Eval.jsonDepthExceeds (List.replicate 3 0x5b ++ [0x31] ++ List.replicate 3 0x5d) 3 = false
     ∧ Eval.jsonDepthExceeds (List.replicate 4 0x5b ++ [0x31] ++ List.replicate 4 0x5d) 3 = true
@@ -363,7 +362,10 @@ theorem extraction_deterministic_partial (R : EnginesRel) (h : R.functional) :
   | cons c rest =>
     simp only at hp hq
     by_cases h1 : c = 0x24
-    · simp only [h1, if_true] at hp hq; exact h.1 _ _ _ _ hp hq
+    · simp only [h1, if_true] at hp hq
+      by_cases hg : Eval.jsonDepthExceeds doc Eval.maxDocumentDepth = true
+      · simp only [hg, if_true] at hp hq; rw [hp, hq]
+      · simp only [hg] at hp hq; exact h.1 _ _ _ _ hp hq
     · simp only [h1, if_false] at hp hq
       by_cases h2 : c = 0x2f
       · simp only [h2, if_true] at hp hq
@@ -396,14 +398,16 @@ theorem parsesRel_of_engines (E : Eval.Engines) (doc sel : Bytes) :
   | cons c rest =>
     simp only
     by_cases h1 : c = 0x24
-    · simp [h1]
+    · simp only [h1, if_true, Eval.jsonBranch]
+      by_cases hg : Eval.jsonDepthExceeds doc Eval.maxDocumentDepth = true <;> simp [hg]
     · by_cases h2 : c = 0x2f
       · simp only [h2, if_true]
         exact ⟨_, rfl, by cases E.xml doc (0x2f :: rest) <;> rfl⟩
       · simp [h1, h2]
 
 example : parsesRel ⟨fun d s p => p = (⟨fun d _ => .ok d, fun _ _ => .err⟩ : Eval.Engines).json d s, fun _ _ x => x = .err⟩ [1] [0x24] (.ok [1]) := by
-  simp [parsesRel]
+  have : Eval.jsonDepthExceeds [1] Eval.maxDocumentDepth = false := by decide
+  simp [parsesRel, this]
 
 /-! ### 7. from the content to the chain: genSign → dispatchSign → recoverSign → reportQueryResult
 
